@@ -219,4 +219,71 @@ theorem ingredientTail_interref_err (start stop modPos nameOffset : Nat) (amp op
   refine Sat.bind (Sat.pure ?_)
   exact Sat.pure ⟨(q5.pushed.trans p6).cast (by simp), rfl⟩
 
+/-! ### metadata entries (`>> key: value`) -/
+
+/-- **empty metadata key / value**: what `metadata_entry` pushes when it returns an entry -/
+theorem metadataEntry_spec (s : BP α) :
+    Sat (metadataEntry (α := α)) s (fun r s' => ∀ k v, r = some (.metadata k v) →
+      (k.isTextEmpty s.cs = true →
+        Pushed [.error ⟨.error, .parse, "empty-metadata-key", [k.span]⟩] s s') ∧
+      (k.isTextEmpty s.cs = false → v.isTextEmpty s.cs = true →
+        Pushed [.warning ⟨.warning, .parse, "empty-metadata-value", [v.span, k.span]⟩] s s') ∧
+      (k.isTextEmpty s.cs = false → v.isTextEmpty s.cs = false → Pushed [] s s')) := by
+  unfold metadataEntry
+  refine Sat.bind (Sat.mono ((FQ.consumeK _).sat s) ?_)
+  rintro r1 s1 q1
+  cases r1 with
+  | none => exact Sat.pure (by intro k v h; cases h)
+  | some m =>
+    refine Sat.bind (Sat.currentOffset ?_)
+    refine Sat.bind (Sat.mono ((FQ.untilK _).sat s1) ?_)
+    rintro r2 s2 q2
+    cases r2 with
+    | none =>
+      refine Sat.bind (Sat.mono (FQ.bpSpan.sat s2) ?_)
+      rintro sp s3 q3
+      refine Sat.bind (Sat.pwarnE ?_)
+      exact Sat.pure (by intro k v h; cases h)
+    | some keyT =>
+      refine Sat.bind (Sat.mono (bpText_spec _ _ s2) ?_)
+      rintro key s3 ⟨rfl, q3⟩
+      refine Sat.bind (Sat.mono ((FQ.bump _).sat s3) ?_)
+      rintro _ s4 q4
+      refine Sat.bind (Sat.currentOffset ?_)
+      refine Sat.bind (Sat.mono (FQ.consumeRest.sat s4) ?_)
+      rintro valT s5 q5
+      refine Sat.bind (Sat.mono (bpText_spec _ _ s5) ?_)
+      rintro value s6 ⟨rfl, q6⟩
+      refine Sat.bind (Sat.get ?_)
+      have q : Same s s6 := ((((q1.trans q2).trans q3).trans q4).trans q5).trans q6
+      dsimp only
+      rw [q.1]
+      split
+      · rename_i hk
+        refine Sat.bind (Sat.perrE ?_)
+        refine Sat.pure ?_
+        intro k v h
+        simp only [Option.some.injEq, Ev.metadata.injEq] at h
+        obtain ⟨rfl, rfl⟩ := h
+        refine ⟨fun _ => (q.pushed.trans (Pushed.one _ _)).cast (by simp), ?_, ?_⟩
+        · intro h0; rw [hk] at h0; cases h0
+        · intro h0; rw [hk] at h0; cases h0
+      · rename_i hk
+        split
+        · rename_i hv
+          refine Sat.bind (Sat.pwarnE ?_)
+          refine Sat.pure ?_
+          intro k v h
+          simp only [Option.some.injEq, Ev.metadata.injEq] at h
+          obtain ⟨rfl, rfl⟩ := h
+          refine ⟨fun h0 => absurd h0 hk, fun _ _ => (q.pushed.trans (Pushed.one _ _)).cast (by simp), ?_⟩
+          intro _ h0; rw [hv] at h0; cases h0
+        · rename_i hv
+          refine Sat.bind (Sat.pure ?_)
+          refine Sat.pure ?_
+          intro k v h
+          simp only [Option.some.injEq, Ev.metadata.injEq] at h
+          obtain ⟨rfl, rfl⟩ := h
+          exact ⟨fun h0 => absurd h0 hk, fun _ h0 => absurd h0 hv, fun _ _ => q.pushed⟩
+
 end Cook
